@@ -1,9 +1,52 @@
-(* C27 — statements only; grows with B/*Proofs.v *)
+(* C27 — WriteBatch applies every operation, later operations winning. Statements only.
+   A WriteBatch is a sequence of internal transactions (batch.go: commit-and-retry on
+   ErrTxnTooBig); the harness replays every batch as the Begin/Modify/Commit labels of those
+   transactions, so the theorems are about Sys.txn_modify / Sys.commit_entries / Lsm.mt_put. *)
 From Verif Require Import Bytes Keys Consts Spec Lsm Sys.
-From Verif Require LsmProofs SysProofs.
+From Verif Require SysProofs BatchProofs.
 Open Scope N_scope.
+Import BatchProofs.
 
+(* the pending map holds, per key, the last accepted call *)
 Theorem C27_pending_is_last_write : forall x es k,
   klookup (x_pend (SysProofs.modifies x es)) k = SysProofs.last_write x es k (klookup (x_pend x) k).
 Proof. exact SysProofs.pending_is_last_write. Qed.
 Print Assumptions C27_pending_is_last_write.
+
+(* entries applied to the memtable in order: the LAST one with a given key@version is what a
+   lookup of that key@version finds (skl.Put overwrites) *)
+Theorem C27_apply_later_wins : forall L s k v,
+  find_kv (fold_left mt_put L s) k v =
+  match last_match (kv_match k v) L with Some e => Some e | None => find_kv s k v end.
+Proof. exact BatchProofs.apply_later_wins. Qed.
+Print Assumptions C27_apply_later_wins.
+
+(* one internal transaction of the batch: whatever mixture of Set / SetEntry / Delete /
+   SetEntryAt / DeleteAt calls (any keys, any explicit versions, repeated key@version included),
+   after the commit the memtable holds under key@version the LAST accepted call stored at that
+   version — this is the statement finding F3 violated before its repair *)
+Theorem C27_later_call_wins : forall x0 es ts s k v,
+  pend_ok x0 -> x_pend x0 = [] -> x_dups x0 = [] ->
+  let x := SysProofs.modifies x0 es in
+  find_kv (fold_left mt_put (commit_entries x ts) s) k v =
+  match last_match (fun e => kv_match k v (stamp ts e)) (accepted_calls x0 es) with
+  | Some e => Some (stamp ts e)
+  | None => find_kv s k v
+  end.
+Proof. exact BatchProofs.commit_later_call_wins. Qed.
+Print Assumptions C27_later_call_wins.
+
+(* the F3 witness, now on the right side: k@5=v1; k@7=v2; k@5=v3 stores v3 under k@5 *)
+Example C27_F3_witness_repaired :
+  let k := [107] in
+  let x0 := mkTxn 0 true [] [] [] false in
+  let x := SysProofs.modifies x0 [mkE k 5 0 0 0 [1]; mkE k 7 0 0 0 [2]; mkE k 5 0 0 0 [3]] in
+  find_kv (fold_left mt_put (commit_entries x 0) []) k 5 = Some (mkE k 5 0 0 0 [3]).
+Proof. reflexivity. Qed.
+
+(* splits: consecutive internal transactions are applied one after the other, so the same
+   statement composes (the later transaction's entries are later in the applied list) *)
+Theorem C27_splits_compose : forall L1 L2 s,
+  fold_left mt_put (L1 ++ L2) s = fold_left mt_put L2 (fold_left mt_put L1 s).
+Proof. intros. apply fold_left_app. Qed.
+Print Assumptions C27_splits_compose.
